@@ -170,6 +170,21 @@ def run(ctx):
                 why_rm = "the resume() in from_config is %s" % ", ".join(x for x, y in (("not applied to the pools of the previous map", from_prev), ("not restricted to pools missing from the new map", gated), ("not after the swap", after_store)) if not y)
         r2.check(ok_rm, "removed-pool-lets-its-clients-go", "from_config opens the pause gate of every pool of the previous map that is missing from the new one, after the swap",
                  why_rm + ": clients held by PAUSE on a pool that the reload removes wait on a gate no RESUME can reach any more - they never get `No pool configured`, their tasks leak")
+        # the tables that are indexed by shard and server position (databases, addresses, banlist) are built by this call, for the shards of the new definition:
+        # none of them is taken over from the live pool - its tables have the old definition's shape (a ban list with one slot per *old* shard makes the first
+        # checkout on a shard the reload added index out of bounds). What is taken over on purpose is the pause gate and the servers' totals.
+        for b_, blk, st_ in F.aggregates("pgcat::pool::ConnectionPool"):
+            if b_ is not fc:
+                continue
+            for fld in ("databases", "addresses", "banlist"):
+                if fld not in st_["rv"]["fields"]:
+                    continue
+                src_ = {o.call.name for o in origins(fc, st_["rv"]["ops"][st_["rv"]["fields"].index(fld)], taint=False) if o.kind == "call"}
+                src_t = {o.call.name for o in origins(fc, st_["rv"]["ops"][st_["rv"]["fields"].index(fld)], taint=True) if o.kind == "call"}
+                live = "pgcat::pool::get_pool" in src_ or any(o.kind in ("place", "param") and ("." + fld) in o.proj for o in origins(fc, st_["rv"]["ops"][st_["rv"]["fields"].index(fld)], taint=True))
+                r2.check(not live, "per-shard-table-built-anew:" + fld, "ConnectionPool.%s of a pool from_config builds is built by this call" % fld,
+                         "ConnectionPool.%s of a rebuilt pool is taken over from the live pool: it has one slot per shard / server of the *previous* definition - after a reload that adds a shard the first checkout on "
+                         "the new shard indexes past its end and the client's task panics; the added shard never serves a transaction" % fld)
     callers = F.callers_of("pgcat::pool::ConnectionPool::from_config")
     r2.check(set(callers) == {"bin:pgcat::main::{closure#1}", RELOAD}, "from_config-callers", "from_config is called from main (startup) and reload_config only", "from_config callers: %s" % callers)
     rl = ctx.body(RELOAD, r2)
